@@ -406,8 +406,9 @@ where
         // Apply the new events
         self.patch_unchecked(&diff.patch).await?;
 
-        // Verify against the checkpoint
-        let computed = self.tree().head()?;
+        // Verify against the checkpoint, when the patch was
+        // empty there is no head and verification fails
+        let computed = self.tree().head().unwrap_or_default();
         let verified = computed == diff.checkpoint;
 
         let mut rollback_completed = false;
@@ -416,6 +417,11 @@ where
             (false, Some(snapshot_path)) => {
                 rollback_completed =
                     self.try_rollback_snapshot(snapshot_path).await.is_ok();
+            }
+            // No snapshot is taken of an empty event log
+            // so rollback by erasing the events
+            (false, None) => {
+                rollback_completed = self.clear().await.is_ok();
             }
             // Delete the snapshot if verified
             (true, Some(snapshot_path)) => {
